@@ -40,6 +40,31 @@ def _run(ctx, ncases):
     mujoco.mj_forward(mjm, mjd)
     warm = rng.random() < 0.5
     m = mjw.put_model(mjm)
+    if cone == "elliptic" and rng.random() < 0.75:
+      # per-world impratio (a batched Option field): every world's optimum is that of ITS OWN cost
+      import warp as wp
+      ratios = [1.0, float(rng.choice([4.0, 10.0, 25.0]))]
+      m.opt.impratio_invsqrt = wp.array(np.array([1.0 / np.sqrt(r) for r in ratios], dtype=np.float32), dtype=float)
+      d2 = mjw.put_data(mjm, mjd, nworld=2, naconmax=400, njmax=500)
+      if not warm:
+        d2.qacc_warmstart.zero_()
+      mjw.forward(m, d2)
+      acc.evals += 1
+      if not (d2.overflow.numpy() & 0x1FF).any():
+        for w, r in enumerate(ratios):
+          mjm.opt.impratio = r
+          mref = mujoco.MjData(mjm)
+          mref.qpos[:], mref.qvel[:] = mjd.qpos, mjd.qvel
+          if warm:
+            mref.qacc_warmstart[:] = mjd.qacc_warmstart
+          mujoco.mj_forward(mjm, mref)
+          qa = d2.qacc.numpy()[w].astype(np.float64)
+          if not np.allclose(qa, mref.qacc, rtol=5e-3, atol=5e-3 * (1 + np.abs(mref.qacc).max())):
+            acc.find(f"world {w} with its own impratio {r}: qacc differs from mj_forward at that impratio (max |d| {np.abs(qa - mref.qacc).max():.3g}; {solver}, {jac})", "solver.solve",
+                     "per-world-impratio", xml=xml, qpos=mjd.qpos.tolist(), qvel=mjd.qvel.tolist(), impratio=ratios)
+        mjm.opt.impratio = 1.0
+      acc.hit("per-world-impratio")
+      m = mjw.put_model(mjm)
     d = mjw.put_data(mjm, mjd, nworld=1, naconmax=200, njmax=500)
     if not warm:
       d.qacc_warmstart.zero_()
@@ -52,7 +77,23 @@ def _run(ctx, ncases):
     qacc = d.qacc.numpy()[0].astype(np.float64)
     ref = mjd.qacc
     scale = 1 + np.abs(ref).max()
-    if not np.allclose(qacc, ref, rtol=5e-3, atol=5e-3 * scale):
+    same_contacts = int(d.nacon.numpy()[0]) == int(mjd.ncon)
+    same_frames = True
+    if same_contacts and mjd.ncon:
+      # the tangent axes of a contact frame are a free choice (only the normal is geometry); a pyramidal cone is not rotation
+      # invariant about the normal, so a different choice of tangents is a (slightly) different, equally valid problem
+      fw = d.contact.frame.numpy()[: mjd.ncon].reshape(-1, 9)
+      fm = np.array([c.frame for c in mjd.contact])
+      order_w = np.lexsort(d.contact.pos.numpy()[: mjd.ncon].T.round(5))
+      order_m = np.lexsort(np.array([c.pos for c in mjd.contact]).T.round(5))
+      same_frames = bool(np.allclose(fw[order_w], fm[order_m], atol=2e-3))
+    if not same_contacts:
+      # a different contact SET (multi-contact CCD pairs: property C04) is a different optimisation problem; the KKT residual
+      # below still judges the solver on mujoco_warp's own problem
+      acc.hit("contact-set-differs:mujoco-comparison-skipped")
+    elif not same_frames and cone == "pyramidal":
+      acc.hit("tangent-frames-differ:mujoco-comparison-skipped")
+    elif not np.allclose(qacc, ref, rtol=5e-3, atol=5e-3 * scale):
       acc.find(f"qacc differs from mj_forward (max |d| {np.abs(qacc - ref).max():.3g}; {cone}, {solver}, {jac}, warmstart={warm})", "solver.solve", "qacc-vs-mujoco", xml=xml,
                qpos=mjd.qpos.tolist(), qvel=mjd.qvel.tolist())
     # independent KKT residual in float64 (pyramidal / frictionless rows only: per-row force law of C24)
